@@ -149,12 +149,14 @@ Definition push (old new : conf) (r : row) (i : inst) : inst :=
      hval := fun f => if mem f (reloads r) && negb (Z.eqb (val (old f)) (val (new f))) then val (new f) else hval i f;
      href := href i |}.
 
+(* the close* variables are computed once (env), then consulted: `lookupb c env` is `closes_eval tbl ptrs old new c` *)
 Definition close_pass (tbl : list row) (ptrs : list string) (old new : conf) (s : state) : state :=
+  let env := eval_rows ptrs old new tbl [] in
   fun c => match find (fun r => String.eqb (comp r) c) tbl with
            | None => s c
            | Some r => match s c with
                        | None => None
-                       | Some i => if closes_eval tbl ptrs old new c then None else Some (push old new r i)
+                       | Some i => if lookupb c env then None else Some (push old new r i)
                        end
            end.
 
